@@ -26,14 +26,18 @@ pub struct Hist {
 }
 
 pub fn make_histories(seed: u64, n: usize) -> Vec<Hist> {
+    make_histories_sized(seed, n, 72, 8)
+}
+
+pub fn make_histories_sized(seed: u64, n: usize, maxdim: usize, maxextra: u64) -> Vec<Hist> {
     let mut out = vec![];
     for i in 0..n {
         let mut rng = Rng::new(seed ^ 0xC17, i as u64);
         let sorenson = rng.chance(2, 3);
         let flavour = if sorenson { Flavour::Sor(rng.below(2) as u8) } else { Flavour::StdPlus };
-        let (w, h) = gen_size(&mut rng, 72);
+        let (w, h) = gen_size(&mut rng, maxdim);
         let (mut w, mut h) = if sorenson { (w, h) } else { (((w + 3) / 4 * 4).max(4), ((h + 3) / 4 * 4).max(4)) };
-        let len = 3 + rng.below(8) as usize;
+        let len = 3 + rng.below(maxextra) as usize;
         let mut calls = vec![];
         let mut have_ref = false;
         let mut tr = rng.byte();
@@ -53,7 +57,7 @@ pub fn make_histories(seed: u64, n: usize) -> Vec<Hist> {
                 }
                 _ => {
                     if have_ref && rng.chance(1, 3) {
-                        let s = gen_size(&mut rng, 72);
+                        let s = gen_size(&mut rng, maxdim);
                         (w, h) = if sorenson { s } else { (((s.0 + 3) / 4 * 4).max(4), ((s.1 + 3) / 4 * 4).max(4)) };
                         cfg.w = w;
                         cfg.h = h;
@@ -124,12 +128,12 @@ struct Event {
 pub fn run(ctx: &Ctx) -> (Report, String) {
     let mut rep = Report::new();
     let miri = ctx.stage == "miri";
-    let n_hist = if miri { 3 } else { ctx.n(24, 96) as usize };
-    let hists = make_histories(ctx.seed, n_hist);
+    let n_hist = if miri { 1 } else { ctx.n(24, 96) as usize };
+    let hists = if miri { make_histories_sized(ctx.seed, n_hist, 16, 1) } else { make_histories(ctx.seed, n_hist) };
     let base = baseline(&hists);
     let base_s = digest_string(&base);
     // determinism within the process: a second single-threaded pass
-    if digest_string(&baseline(&hists)) != base_s {
+    if !miri && digest_string(&baseline(&hists)) != base_s {
         rep.violation("nondeterministic/same-thread", "two single-threaded passes over the same histories gave different digests".to_string(), J::obj().set("property", "C17").set("seed", ctx.seed));
     }
     rep.count("baseline_passes");
@@ -150,14 +154,14 @@ pub fn run(ctx: &Ctx) -> (Report, String) {
         }
     }
     // concurrent replicas
-    let rounds = if miri { 1 } else { ctx.n(40, 600) };
+    let rounds = if miri { 1 } else { ctx.n(200, 3000) };
     let thread_counts: &[usize] = if miri { &[3] } else { &[2, 4, 16] };
     let ticket = AtomicU64::new(0);
     let mut signatures: HashSet<u64> = HashSet::new();
     let mut overlapping_pairs = 0u64;
     for round in 0..rounds {
         let t = thread_counts[(round as usize) % thread_counts.len()];
-        let per_thread = if miri { 2 } else { 3 };
+        let per_thread = if miri { 1 } else { 3 };
         let events: Mutex<Vec<Event>> = Mutex::new(vec![]);
         let bad: Mutex<Vec<(usize, usize, usize, usize)>> = Mutex::new(vec![]);
         std::thread::scope(|s| {
